@@ -9,6 +9,8 @@ props = sys.argv[2:]
 name = os.path.basename(seed).replace("seed_", "")
 if name.startswith("seedb_"):
     name = name[len("seedb_"):] + "b"
+if name.startswith("seedc_"):
+    name = name[len("seedc_"):] + "c"
 V = "/verif"
 patch = os.path.join(seed, "patch.diff")
 demo = os.path.join(seed, "demo.py")
